@@ -204,6 +204,7 @@ where
     let mean_t = Tensor::from([(dim(7), mean_flat.len())], mean_flat.clone());
     let cov_t = Tensor::from([(dim(8), cr), (dim(9), cc)], cov_flat.clone());
     let t_res = match MultivariateGaussianTensor::<T>::new(mean_t.clone(), cov_t.clone()) {
+        Err(e) if e.to_string().is_empty() || format!("{:?}", e).is_empty() => return inconsistent(309),
         Err(e) => match *e {
             MultivariateGaussianError::NotCovarianceMatrix { mean, covariance } => {
                 if mean != mean_t || covariance != cov_t {
